@@ -45,6 +45,11 @@ def pySlice {α : Type} (y : List α) (start stop : Int) : List α :=
 /-- `int(np.ceil(n * pad))` in IEEE double arithmetic (`pad ≥ 0`). -/
 def lpadOf (n : Nat) (pad : Float) : Nat := (Float.ceil (n.toFloat * pad)).toUInt64.toNat
 
+/-- `int(np.ceil(n * pad))` read over the rationals, `pad = num / den` (`den > 0`): `⌈n · num / den⌉`.  This is the reading
+the translator tie (`Tie/C20.lean`) proves equal to the source expression; the IEEE evaluation is `lpadOf` (the two agree
+whenever `n · pad` is computed exactly, e.g. for dyadic `pad`; compared on every run). -/
+def lpadRat (n num den : Nat) : Nat := (n * num + den - 1) / den
+
 /-- `np.pad(ts, l, mode="edge")` (`ts` non-empty). -/
 def edgePad {α : Type} (x : List α) (l : Nat) : List α :=
   match x.head?, x.getLast? with
